@@ -90,3 +90,30 @@ func symxC19Subs() {
 	}
 	rt.Cover(loaded && len(ref[1]) > 0 && len(ref[0]) > 0, "C19.subs.prefix_pair_after_load")
 }
+
+func symxPar(a, b func()) {
+	done := make(chan struct{}, 2)
+	go func() { a(); done <- struct{}{} }()
+	go func() { b(); done <- struct{}{} }()
+	<-done
+	<-done
+}
+
+// symxC20Subs: concurrent operations on the subscription trie.
+func symxC20Subs() {
+	t := NewTree()
+	t.Upsert([]byte("a"), func([]byte) []byte { return []byte("1") })
+	switch rt.Int("pair", 0, 1) {
+	case 0:
+		symxPar(func() { t.Upsert([]byte("a/b"), func([]byte) []byte { return []byte("2") }) },
+			func() { t.Upsert([]byte("a"), func([]byte) []byte { return nil }) })
+		n := 0
+		t.Iterate(func(b []byte) { n++ })
+		rt.Assert(n == 1, "C20.subs.upsert_beside_removal_of_its_prefix")
+	case 1:
+		n := 0
+		symxPar(func() { t.Upsert([]byte("a/b"), func([]byte) []byte { return []byte("2") }) },
+			func() { t.Walk([]byte("a/b"), func(b []byte) { n += len(b) }) })
+		rt.Assert(n == 0 || n == 1, "C20.subs.walk_sees_a_consistent_tree")
+	}
+}
